@@ -138,7 +138,7 @@ def run(module, cfg, tag='tlc', workers=16, dump=True, simulate=None, depth=None
                 f.write(text)
     with open(os.path.join(d, module + '.cfg'), 'w') as f:
         f.write(cfg)
-    cmd = ['java', '-XX:+UseParallelGC', '-Xmx8g']
+    cmd = ['java', '-XX:+UseSerialGC', '-Xss16m', '-Xmx6g', '-XX:TieredStopAtLevel=1'] if not os.environ.get('VERIF_TLC_C2') else ['java', '-XX:+UseParallelGC', '-XX:ParallelGCThreads=4', '-Xss16m', '-Xmx8g']
     if jvm:
         cmd += jvm
     cmd += ['-cp', JAR, 'tlc2.TLC', '-workers', str(workers), '-metadir', os.path.join(d, 'md'),
